@@ -55,6 +55,20 @@ package decimal
 //@ define rq_n(z) = (z.prec + 18)/19
 //@ define rq_ntz(z) = 19*((z.prec + 18)/19) - z.prec
 
+// roundspec(z, M, L, e, st): rounded() completed by the two ends of the exponent range
+// (C01: below 10^(MinExp-1) a zero of the result's sign, beyond the range an infinity;
+// C02: reported as Below/Above relative to the exact finite result).
+//@ define roundspec(z, M, L, e, st) =
+//@   (e < MinExp ==> z.form == zero && z.acc == (z.neg ? 1 : 0 - 1)) &&
+//@   (e > MaxExp ==> z.form == inf && z.acc == (z.neg ? 0 - 1 : 1)) &&
+//@   (MinExp <= e && e <= MaxExp ==> rounded(z, M, L, e, st))
+
+// mulspec: z is the exact product 0.Mx * 0.My * 10^(ex+ey) rounded once.  The product of
+// two normalized mantissas has Lx+Ly words and at most one leading zero digit.
+//@ define mulspec(z, Mx, Lx, ex, My, Ly, ey) =
+//@   (10*(Mx*My) >= P(Lx+Ly) ==> roundspec(z, Mx*My, Lx+Ly, ex + ey, false)) &&
+//@   (10*(Mx*My) <  P(Lx+Ly) ==> roundspec(z, 10*(Mx*My), Lx+Ly, ex + ey - 1, false))
+
 // ---------------------------------------------------------------------------
 // tiny helpers, executed inline
 
@@ -256,13 +270,39 @@ package decimal
 //@   ensures[underflow,C02,C04] z.form == zero ==> z.acc != 0
 //@   ensures[shape,C08] z.form == finite ==> mantok(z) && 19*len(z.mant) < z.prec + 19 && (19*len(z.mant) > z.prec ==> z.mant[0] % p10(19*len(z.mant) - z.prec) == 0)
 //@   ensures[buffer,C18] (z.mant.arr == old(z.mant.arr) && z.mant.off == old(z.mant.off) && cap(z.mant) == old(cap(z.mant))) || fresh(z.mant)
+//@   ensures[value,C01,C02,C03,C06] mulspec(z, old(V(x.mant)), old(len(x.mant)), old(x.exp), old(V(y.mant)), old(len(y.mant)), old(y.exp))
 //@   hint[entry] V_ge_P(x.mant, 0, len(x.mant))
 //@   hint[entry] V_ge_P(y.mant, 0, len(y.mant))
 //@   hint[entry] P_mono(0, len(x.mant)-1)
 //@   hint[entry] P_mono(0, len(y.mant)-1)
 //@   hint[entry] mul_mono(1, V(x.mant), V(y.mant))
+//@   hint[entry] V_top(x.mant, 0, len(x.mant))
+//@   hint[entry] V_top(y.mant, 0, len(y.mant))
+//@   hint[entry] V_bounds(x.mant, 0, len(x.mant))
+//@   hint[entry] V_bounds(y.mant, 0, len(y.mant))
+//@   hint[entry] mul_mono(B/10, x.mant[len(x.mant)-1], P(len(x.mant)-1))
+//@   hint[entry] mul_mono(B/10, y.mant[len(y.mant)-1], P(len(y.mant)-1))
+//@   hint[entry] mul_mono((B/10)*P(len(x.mant)-1), V(x.mant), V(y.mant))
+//@   hint[entry] mul_mono((B/10)*P(len(y.mant)-1), V(y.mant), (B/10)*P(len(x.mant)-1))
+//@   hint[entry] P_add(len(x.mant)-1, len(y.mant)-1)
+//@   hint[entry] Pdef(len(x.mant)+len(y.mant)-2)
+//@   hint[entry] Pdef(len(x.mant)+len(y.mant)-1)
+//@   hint[entry] mul_eq(P(len(x.mant)+len(y.mant)-2), P(len(x.mant)-1)*P(len(y.mant)-1), (B/10)*(B/10))
+//@   hint[entry] assert(V(x.mant)*V(y.mant) >= (B/100)*P(len(x.mant)+len(y.mant)-1))
 //@   hint[after:mul#1] len(result) >= 1 ==> V_ge_P(result, 0, len(result))
 //@   hint[after:sqr#1] len(result) >= 1 ==> V_ge_P(result, 0, len(result))
+//@   hint[after:mul#1] V_bounds(result, 0, len(result))
+//@   hint[after:sqr#1] V_bounds(result, 0, len(result))
+//@   hint[after:mul#1] len(result) <= len(x.mant)+len(y.mant)-1 ==> P_mono(len(result), len(x.mant)+len(y.mant)-1)
+//@   hint[after:sqr#1] len(result) <= len(x.mant)+len(y.mant)-1 ==> P_mono(len(result), len(x.mant)+len(y.mant)-1)
+//@   hint[after:mul#1] assert(len(result) == old(len(x.mant)) + old(len(y.mant)))
+//@   hint[after:sqr#1] assert(len(result) == old(len(x.mant)) + old(len(y.mant)))
+//@   hint[after:dnorm#1] V_top(z.mant, 0, len(z.mant))
+//@   hint[after:dnorm#1] V_bounds(z.mant, 0, len(z.mant))
+//@   hint[after:dnorm#1] mul_mono(B/10, z.mant[len(z.mant)-1], P(len(z.mant)-1))
+//@   hint[after:dnorm#1] p10(result) >= 100 ==> mul_mono(100, p10(result), old(V(x.mant))*old(V(y.mant)))
+//@   hint[after:dnorm#1] assert(result <= 1)
+//@   hint[after:dnorm#1] assert(result == (10*(old(V(x.mant))*old(V(y.mant))) < P(len(z.mant)) ? 1 : 0))
 //@   tags support C08,C04
 
 //@ func (z *Decimal) uquo(x, y *Decimal)
@@ -479,6 +519,8 @@ package decimal
 //@   ensures[buffer,C18] buffer_ok(z)
 //@   ensures[valid,C08] valid(z)
 //@   ensures[sign,C01,C04] z.neg == (old(x.neg) != old(y.neg))
+//@   ensures[value,C01,C02,C06] old(x.form) == finite && old(y.form) == finite ==>
+//@        mulspec(z, old(V(x.mant)), old(len(x.mant)), old(x.exp), old(V(y.mant)), old(len(y.mant)), old(y.exp))
 //@   ensures[specials,C04] (old(x.form) == inf || old(y.form) == inf ==> z.form == inf && z.acc == 0) &&
 //@        ((old(x.form) == zero || old(y.form) == zero) ==> z.form == zero && z.acc == 0)
 //@   panics[nan,C04] (old(x.form) == zero && old(y.form) == inf) || (old(x.form) == inf && old(y.form) == zero)
